@@ -188,7 +188,7 @@ example : demoT.valid = true ∧ demoT.inDomain = true := by decide
 example : (triplesFrom 0 demoT.rows) = [(0, 0, 1), (2, 1, -7)] := by decide
 example : holds demoIn (model demoIn) = true :=
   model_holds (by intro v; omega) demoIn (by decide) (by decide)
-example : (writeToks demoT "g" "d").length = 111 := by decide +kernel
+example : (writeToks demoT "g" "d").length = 136 := by decide +kernel
 /-- the all-zero table and the 0 x 0 table are in the domain -/
 example : (⟨"None", none, ["a", "b"], ["x"], [.null, .null], [.null], [[0], [0]]⟩ : JT Int).valid = true ∧
     (⟨"None", none, ["a", "b"], ["x"], [.null, .null], [.null], [[0], [0]]⟩ : JT Int).inDomain = true := by decide
@@ -196,7 +196,7 @@ example : (⟨"None", none, [], [], [], [], []⟩ : JT Int).valid = true ∧
     (⟨"None", none, [], [], [], [], []⟩ : JT Int).inDomain = true := by decide
 /-- the predicate is not trivially true: dropping the comma between two data entries, or changing a
 value, makes it false -/
-example : holds demoIn { model demoIn with toksS := (writeToks demoT "gen\"by" "2020-01-02T03:04:05").eraseIdx 57 } = false := by
+example : holds demoIn { model demoIn with toksS := (writeToks demoT "gen\"by" "2020-01-02T03:04:05").eraseIdx 51 } = false := by
   decide +kernel
 example : holds demoIn { model demoIn with
     reads := [("r", .ok { obs := demoT.obs, samp := demoT.samp, omd := normMd demoT.omd, smd := normMd demoT.smd,
